@@ -1,6 +1,7 @@
 package c16
 
 import (
+	"crypto/ecdsa"
 	"fmt"
 
 	"github.com/emmansun/gmsm/pkcs7"
@@ -82,7 +83,7 @@ func drawSigned(t *rapid.T) sdSpec {
 
 func TestC16_SignedComplete(t *testing.T) {
 	h.Observe("config", h.Cfg)
-	h.Prop(t, h.P{Name: "signed-complete", Quick: 700, Thorough: 12000}, drawSigned,
+	h.Prop(t, h.P{Name: "signed-complete", Quick: 700, Thorough: 6000}, drawSigned,
 		func(s sdSpec, r *h.Rec) error {
 			// the (slow, naive) SM2 reference verification runs on a share of the cases
 			return checkSignedComplete(s, r, s.Seed%8 == 0)
@@ -191,9 +192,33 @@ func checkWrongContent(c wrongCase, r *h.Rec) error {
 			}
 			return nil
 		}
+		// ECDSA signs the leftmost min(hash length, order length) bits of the digest
+		// (FIPS 186-4 6.4): when every signer is an attribute-less ECDSA signer on
+		// a curve shorter than the digest, the trailing digest octets are not part
+		// of what is signed, and a digest differing only there is not "another
+		// digest" for this signature scheme. Bit flips stay inside the signed part.
+		wrongDigest := func(d []byte) []byte {
+			eff := 0
+			for _, g := range s.Signers {
+				e := len(d)
+				if k, ok := id(g.Id).cert.PublicKey.(*ecdsa.PublicKey); ok && g.NoAttr && g.Digest != "sm3" {
+					if n := (k.Curve.Params().N.BitLen()) / 8; n < e {
+						e = n
+					}
+				}
+				if e > eff {
+					eff = e
+				}
+			}
+			if c.How == 0 && eff < len(d) {
+				w := append(wrongValue(d[:eff], 0, c.At), d[eff:]...)
+				return w
+			}
+			return wrongValue(d, c.How, c.At)
+		}
 		switch s.Mode {
 		case modeDigest:
-			out = try("digest", wrongValue(b.digest, c.How, c.At), true)
+			out = try("digest", wrongDigest(b.digest), true)
 			if out == nil {
 				out = try("content", wrongValue(b.content, c.How, c.At), false)
 			}
@@ -201,7 +226,7 @@ func checkWrongContent(c wrongCase, r *h.Rec) error {
 			out = try("content", wrongValue(b.content, c.How, c.At), false)
 			if out == nil {
 				d := myHash(s.Signers[0].Digest, b.content)
-				out = try("digest", wrongValue(d, c.How, c.At), true)
+				out = try("digest", wrongDigest(d), true)
 			}
 			if out == nil && len(b.content) != len(myHash(s.Signers[0].Digest, b.content)) {
 				// the content itself is not its digest
